@@ -50,6 +50,11 @@ pub struct Plan {
     /// stack size of the worker's execution thread (bytes)
     pub worker_stack: usize,
     pub max_shrink_iters: u32,
+    /// when set, a case whose worker has consumed this many CPU seconds (its own user + system
+    /// time, so machine load does not count) without answering, or whose resident memory passed
+    /// `hang_rss_mb`, is reported as `Obs::Hung` instead of waiting for the wall-clock watchdog
+    pub hang_cpu_s: Option<u64>,
+    pub hang_rss_mb: u64,
 }
 
 impl Default for Plan {
@@ -62,6 +67,8 @@ impl Default for Plan {
             worker_recycle: 400,
             worker_stack: 256 << 20,
             max_shrink_iters: 300,
+            hang_cpu_s: None,
+            hang_rss_mb: 3072,
         }
     }
 }
@@ -72,6 +79,9 @@ pub enum Obs {
     Panicked { msg: String, loc: String },
     Died { status: String, tail: String },
     TimedOut,
+    /// the case consumed `cpu_s` CPU seconds (or `rss_mb` MiB) without answering (only with
+    /// `Plan::hang_cpu_s`)
+    Hung { cpu_s: u64, rss_mb: u64 },
 }
 
 impl Obs {
@@ -81,6 +91,7 @@ impl Obs {
             Obs::Panicked { msg, loc } => json!({"panicked": {"msg": msg, "loc": loc}}),
             Obs::Died { status, tail } => json!({"died": {"status": status, "tail": tail}}),
             Obs::TimedOut => json!("timed_out"),
+            Obs::Hung { cpu_s, rss_mb } => json!({"hung": {"cpu_s": cpu_s, "rss_mb": rss_mb}}),
         }
     }
 }
@@ -268,6 +279,8 @@ pub struct Worker {
     log_path: String,
     pub sent_since_spawn: usize,
     stack: usize,
+    pub hang_cpu_s: Option<u64>,
+    pub hang_rss_mb: u64,
 }
 
 impl Worker {
@@ -282,7 +295,14 @@ impl Worker {
             log_path: format!("{}/{}-{}-{}.log", dir, prop, std::process::id(), shard),
             sent_since_spawn: 0,
             stack,
+            hang_cpu_s: None,
+            hang_rss_mb: 3072,
         }
+    }
+    pub fn with_plan(mut self, plan: &Plan) -> Worker {
+        self.hang_cpu_s = plan.hang_cpu_s;
+        self.hang_rss_mb = plan.hang_rss_mb;
+        self
     }
     fn spawn(&mut self) {
         self.kill();
@@ -357,7 +377,34 @@ impl Worker {
         if !ok {
             return self.died();
         }
-        let r = self.rx.as_ref().unwrap().recv_timeout(watchdog);
+        let r = match self.hang_cpu_s {
+            None => self.rx.as_ref().unwrap().recv_timeout(watchdog),
+            Some(limit) => {
+                // poll once a second: CPU time and resident memory of the worker since the case
+                // was sent
+                let pid = self.child.as_ref().map(|c| c.id()).unwrap_or(0);
+                let (cpu0, _) = proc_cpu_rss(pid);
+                let t0 = std::time::Instant::now();
+                // the wall-clock bound only ends cases that neither answer nor consume CPU
+                let wall = watchdog.max(Duration::from_secs(limit * 6));
+                loop {
+                    match self.rx.as_ref().unwrap().recv_timeout(Duration::from_secs(1)) {
+                        Err(RecvTimeoutError::Timeout) => {
+                            let (cpu, rss_mb) = proc_cpu_rss(pid);
+                            let used = cpu.saturating_sub(cpu0) / 100;
+                            if used >= limit || rss_mb >= self.hang_rss_mb {
+                                self.kill();
+                                return Obs::Hung { cpu_s: used, rss_mb };
+                            }
+                            if t0.elapsed() >= wall {
+                                break Err(RecvTimeoutError::Timeout);
+                            }
+                        }
+                        other => break other,
+                    }
+                }
+            }
+        };
         match r {
             Ok(line) => match serde_json::from_str::<Value>(&line) {
                 Ok(v) => {
@@ -408,6 +455,17 @@ impl Worker {
     pub fn pid(&self) -> Option<u32> {
         self.child.as_ref().map(|c| c.id())
     }
+}
+
+/// (user + system CPU time in clock ticks of 1/100 s, resident set in MiB) of a process
+fn proc_cpu_rss(pid: u32) -> (u64, u64) {
+    let s = std::fs::read_to_string(format!("/proc/{}/stat", pid)).unwrap_or_default();
+    let rest = s.rsplit(')').next().unwrap_or("");
+    let f: Vec<&str> = rest.split_whitespace().collect();
+    let ut = f.get(11).and_then(|x| x.parse::<u64>().ok()).unwrap_or(0);
+    let st = f.get(12).and_then(|x| x.parse::<u64>().ok()).unwrap_or(0);
+    let rss_pages = f.get(21).and_then(|x| x.parse::<u64>().ok()).unwrap_or(0);
+    (ut + st, rss_pages * 4096 / (1 << 20))
 }
 
 impl Drop for Worker {
@@ -602,7 +660,7 @@ pub fn run_property(prop: &'static dyn Property, tier: Tier) -> i32 {
     let mut known_lines: BTreeSet<String> = BTreeSet::new();
     let mut replay_violation_files: Vec<(String, String)> = vec![];
     {
-        let mut w = Worker::new(id, 99, plan.worker_stack);
+        let mut w = Worker::new(id, 99, plan.worker_stack).with_plan(&plan);
         for (path, file) in &replays {
             let cases: Vec<Value> = if let Some(h) = file.get("history").and_then(|h| h.as_array())
             {
@@ -652,13 +710,17 @@ pub fn run_property(prop: &'static dyn Property, tier: Tier) -> i32 {
         let tape_len = plan.tape_len;
         let recycle = plan.worker_recycle;
         let stack = plan.worker_stack;
+        let (hang_cpu_s, hang_rss_mb) = (plan.hang_cpu_s, plan.hang_rss_mb);
         let max_shrink = plan.max_shrink_iters;
         let h = std::thread::Builder::new()
             .name(format!("shard{}", shard))
             .stack_size(64 << 20)
             .spawn(move || {
                 let mut local = Stats::default();
-                let worker = RefCell::new(Worker::new(id, shard, stack));
+                let mut w0 = Worker::new(id, shard, stack);
+                w0.hang_cpu_s = hang_cpu_s;
+                w0.hang_rss_mb = hang_rss_mb;
+                let worker = RefCell::new(w0);
                 let history: RefCell<Vec<Value>> = RefCell::new(vec![]);
                 // one step: run a case, judge, record; returns Err(msg) on violation
                 let failed = RefCell::new(false);
@@ -977,7 +1039,7 @@ pub fn replay_file(prop: &'static dyn Property, path: &str) -> i32 {
     } else {
         vec![file["case"].clone()]
     };
-    let mut w = Worker::new(prop.id(), 98, plan.worker_stack);
+    let mut w = Worker::new(prop.id(), 98, plan.worker_stack).with_plan(&plan);
     w.fresh();
     let mut exit = 0;
     let n = cases.len();
